@@ -952,6 +952,48 @@ def m_optional_subtree(f):
     return False
 
 
+def m_closure_error(f):
+    """fallback signature should proposed_fixes/C17-closure-error-keeps-product not be taken: a line of the top table
+    without -j names a product that is set up, and below it - following the tables of the set-up versions through
+    products that are set up - sits a product one of whose required dependencies is not set up (it was set up
+    without its dependencies, -j)"""
+    c = f["input"]
+    if f["kind"] != "exact-reproduces-missing":
+        return False
+    built = c["built"]
+    prods = c["world"]["products"]
+
+    def deps(n):
+        for ln in prods.get(n, {}).get(built.get(n), []):
+            if is_setup_line(ln):
+                try:
+                    d = classify(ln)
+                except OutOfGrammar:
+                    continue
+                yield d[2], d[1]
+    just = set(has_just_line(c["table"]))
+    for ln in c["table"]:
+        if not is_setup_line(ln):
+            continue
+        try:
+            q = classify(ln)[2]
+        except OutOfGrammar:
+            continue
+        if q in just or q not in built or q == c["top"]:
+            continue
+        seen, todo = {q}, [q]
+        while todo:
+            n = todo.pop()
+            for dn, dopt in deps(n):
+                if dn not in built:
+                    if not dopt and n != q:
+                        return True
+                elif dn not in seen:
+                    seen.add(dn)
+                    todo.append(dn)
+    return False
+
+
 # ------------------------------------------------------------------ driver
 
 def corpus_cases():
@@ -968,6 +1010,7 @@ def setup_ctx(ctx):
     ctx.matchers["c17.empty_exact_block"] = m_empty_exact_block
     ctx.matchers["c17.just_line"] = m_just_line                 # fallbacks: only used if the repairs are not taken
     ctx.matchers["c17.optional_subtree"] = m_optional_subtree
+    ctx.matchers["c17.closure_error"] = m_closure_error
     ctx.rule = ("random one-stack worlds of 3-5 products x 1-3 versions (harness/setupsim.py: bare / versioned / "
                 "expression / -j, required and optional dependencies, diamonds with conflicting versions, products "
                 "without a current version); the top table is spread over several setup blocks with comments, blank "
